@@ -179,8 +179,9 @@ void gp_str_reserve(
     GPString* pstr,
     size_t capacity)
 {
+    const size_t old_capacity = gp_str_capacity(*pstr);
     GPString str = gp_arr_reserve(sizeof**pstr, *pstr, capacity + sizeof"");
-    if (str != *pstr) // allocation happened
+    if (gp_str_capacity(str) != old_capacity) // allocation happened, maybe in place
         gp_str_header(str)->capacity -= sizeof"";
     *pstr = str;
 }
